@@ -56,7 +56,8 @@ def generateIntrospectionXML(objectPath, exportedObjects):
     for path in exportedObjects.keys():
         if path.startswith(objectPath):
             path = path[len(objectPath):].partition('/')[0]
-            if path not in matches:
+            # the root object is not a child of itself
+            if path and path not in matches:
                 matches.append(path)
 
     if obj is None and not matches:
